@@ -429,6 +429,33 @@ class Fn:
         finally:
             self._origin_cache, self._var_mode = old_cache, old_mode
 
+    def var_family(self, op):
+        """The variables an operand denotes, plus every variable whose (whole) value was moved
+        into one of them (`let content = match helper_result { Some(Ok(c)) => c, .. }` makes `c`,
+        and the helper's own buffer, the same buffer)."""
+        seen = set()
+        work = list(self.vars_of_operand(op))
+        while work:
+            o = work.pop()
+            if o in seen:
+                continue
+            seen.add(o)
+            if o[0][0] == "var" and len(o) == 1:
+                l = o[0][1]
+                old_cache, old_mode = self._origin_cache, getattr(self, "_var_mode", False)
+                self._origin_cache = {}
+                self._var_mode = True
+                self._var_expand = l
+                try:
+                    nxt = self._origins(l, (), frozenset())
+                finally:
+                    self._origin_cache, self._var_mode = old_cache, old_mode
+                    self._var_expand = None
+                for n in nxt:
+                    if n not in seen and not (n[0][0] == "var" and n[0][1] == l):
+                        work.append(n)
+        return seen
+
     def vars_of_place(self, place):
         return self.vars_of_operand({"k": "copy", "place": place})
 
@@ -472,7 +499,7 @@ class Fn:
             return set()
         visiting = visiting | {key}
         out = set()
-        if getattr(self, "_var_mode", False) and local in self.names:
+        if getattr(self, "_var_mode", False) and local in self.names and local != getattr(self, "_var_expand", None):
             return {(("var", local),) + steps}
         if 1 <= local <= self.nargs:
             out.add((("param", local),) + steps)
@@ -567,6 +594,13 @@ class Fn:
                      (p not in PASS_THROUGH and self.prog.return_summary(cs) is not None)):
             # a copy (or a getter handing out an owned copy) is new storage
             return {(("call", self.id, cs.bb, cs.path),) + steps}
+        if cs.name in ("unwrap_or", "unwrap_or_default") and p.startswith(("std::option::Option::", "std::result::Result::")) and cs.args:
+            # the payload, or the fallback
+            v = "Some" if p.startswith("std::option::Option::") else "Ok"
+            out = self._op_origins(cs.args[0], (("variant", v), ("field", 0)) + tuple(steps), visiting)
+            if len(cs.args) > 1:
+                out = out | self._op_origins(cs.args[1], steps, visiting)
+            return out
         if p in PASS_THROUGH and cs.args:
             return self._op_origins(cs.args[0], steps, visiting)
         if p in ITER_SOURCES and cs.args:
@@ -863,6 +897,40 @@ class Fn:
             rest = {vmap(n) for n in names.values()} - listed
             if rest == {variant}:
                 out.add((bb, info["otherwise"]))
+        return out
+
+    def nonempty_edges(self, is_coll, nonempty=True):
+        """Edges on which a collection (chosen by is_coll(operand of len()/is_empty())) is known
+        to be non-empty (or empty): `len() > 0`, `len() != 0`, `len() >= 1`, `0 < len()`,
+        `len() == 0`, `!is_empty()`, `is_empty()`."""
+        def len_of(op):
+            for o in self.origins_of_operand(op):
+                if o[0][0] == "call" and len(o) == 1 and o[0][3].split("::")[-1] == "len":
+                    c = self.call_at[o[0][2]]
+                    if c.args and is_coll(c.args[0]):
+                        return True
+            return False
+
+        def const(op, v):
+            return op["k"] == "const" and op.get("bits") == str(v)
+
+        def desc_nonempty(d):
+            """+1: comparison true <=> nonempty; -1: true <=> empty; 0: not about it"""
+            a, b, op = d["a"], d["b"], d["op"]
+            if len_of(a) and const(b, 0):
+                return {"Gt": 1, "Ne": 1, "Eq": -1, "Le": -1}.get(op, 0)
+            if len_of(b) and const(a, 0):
+                return {"Lt": 1, "Ne": 1, "Eq": -1, "Ge": -1}.get(op, 0)
+            if len_of(a) and const(b, 1):
+                return {"Ge": 1, "Lt": -1}.get(op, 0)
+            if len_of(b) and const(a, 1):
+                return {"Le": 1, "Gt": -1}.get(op, 0)
+            return 0
+        want = 1 if nonempty else -1
+        out = self.cmp_edges(lambda d: desc_nonempty(d) == want, True) | self.cmp_edges(lambda d: desc_nonempty(d) == -want, False)
+        for c in self.calls:
+            if c.name == "is_empty" and c.args and is_coll(c.args[0]):
+                out |= self.bool_edges_of_call(c, not nonempty)
         return out
 
     def bool_edges_of_call(self, cs, truth):
